@@ -9,6 +9,8 @@ import (
 	"fmt"
 	"math/big"
 	"strings"
+	"unicode"
+	"unicode/utf8"
 
 	"pgregory.net/rapid"
 )
@@ -215,14 +217,42 @@ func vGenName(t *rapid.T, wild bool, label string) string {
 	return sb.String()
 }
 
+// vToggleCase flips the case of the first cased letter (ASCII, Cyrillic, Greek, accented Latin).
+func vToggleCase(s string) string {
+	for i, r := range s {
+		if u := unicode.ToUpper(r); u != r {
+			return s[:i] + string(u) + s[i+utf8.RuneLen(r):]
+		}
+		if l := unicode.ToLower(r); l != r {
+			return s[:i] + string(l) + s[i+utf8.RuneLen(r):]
+		}
+	}
+	return s
+}
+
 // vGenNamePool returns k distinct names.
 func vGenNamePool(t *rapid.T, wild bool, k int, label string) []string {
 	seen := map[string]bool{}
 	var out []string
 	for i := 0; len(out) < k; i++ {
 		nm := vGenName(t, wild, fmt.Sprintf("%s%d", label, i))
+		if len(out) > 0 && rapid.IntRange(0, 5).Draw(t, fmt.Sprintf("%s%d.casevariant", label, i)) == 0 {
+			// a name that differs from an earlier one only in letter case is a different name
+			src := out[rapid.IntRange(0, len(out)-1).Draw(t, fmt.Sprintf("%s%d.casesrc", label, i))]
+			if v := vToggleCase(src); v != src {
+				nm = v
+			}
+		}
 		if nm == "h" || nm == "help" { // urfave/cli reads these as its help command when they are an argument
 			nm += "x"
+		}
+		if len(out) > 0 && rapid.IntRange(0, 7).Draw(t, fmt.Sprintf("%s%d.twin", label, i)) == 0 {
+			// a long name that shares its first and last ten runes with an earlier long name
+			src := []rune(out[rapid.IntRange(0, len(out)-1).Draw(t, fmt.Sprintf("%s%d.twinsrc", label, i))])
+			if len(src) >= 21 {
+				mid := string(vEdgeASCII[rapid.IntRange(0, 25).Draw(t, fmt.Sprintf("%s%d.twinmid", label, i))])
+				nm = string(src[:10]) + mid + mid + string(src[len(src)-10:])
+			}
 		}
 		for seen[nm] { // construction, not rejection: make it distinct
 			nm += string(vEdgeASCII[len(out)%len(vEdgeASCII)])
@@ -233,12 +263,26 @@ func vGenNamePool(t *rapid.T, wild bool, k int, label string) []string {
 	return out
 }
 
-// vGenPath builds a category path: 1..maxSeg non-empty segments over a small alphabet.
+// vGenPath builds a category path: 1..maxSeg non-empty segments over a small
+// alphabet; one path in 15 is 9-12 segments deep (deeper than any fixed
+// indentation table). Segments may carry a blank next to the separator
+// ("b /c"), which is a different category than "b/c"; the path as a whole never
+// starts or ends with a blank.
 func vGenPath(t *rapid.T, segs []string, maxSeg int, label string) string {
 	n := rapid.IntRange(1, maxSeg).Draw(t, label+".n")
+	if rapid.IntRange(0, 14).Draw(t, label+".deep") == 0 {
+		n = rapid.IntRange(9, 12).Draw(t, label+".ndeep")
+	}
 	parts := make([]string, n)
 	for i := range parts {
 		parts[i] = segs[rapid.IntRange(0, len(segs)-1).Draw(t, label+".s")]
+		if n > 1 && rapid.IntRange(0, 11).Draw(t, label+".blank") == 0 {
+			if i > 0 && rapid.Bool().Draw(t, label+".lead") {
+				parts[i] = " " + parts[i]
+			} else if i < n-1 {
+				parts[i] = parts[i] + " "
+			}
+		}
 	}
 	return strings.Join(parts, "/")
 }
@@ -249,7 +293,22 @@ func vGenPath(t *rapid.T, segs []string, maxSeg int, label string) string {
 // vGenNumAny draws a number in any documented/accepted decimal shape.
 func vGenNumAny(t *rapid.T, label string) string {
 	sign := []string{"", "", "", "-", "-", "+"}[rapid.IntRange(0, 5).Draw(t, label+".sign")]
-	switch rapid.IntRange(0, 11).Draw(t, label+".shape") {
+	switch rapid.IntRange(0, 13).Draw(t, label+".shape") {
+	case 13: // many decimals but few significant digits
+		nz := rapid.IntRange(12, 22).Draw(t, label+".nz")
+		return sign + "0." + strings.Repeat("0", nz) + fmt.Sprint(rapid.IntRange(1, 9999).Draw(t, label+".sig")) + strings.Repeat("0", rapid.IntRange(0, 8).Draw(t, label+".tz"))
+	case 12: // 15, 16 or 17 significant digits with the point anywhere: the edge of float64's exact integers
+		nd := rapid.IntRange(15, 17).Draw(t, label+".nd")
+		digits := make([]byte, nd)
+		digits[0] = byte('1' + rapid.IntRange(0, 8).Draw(t, label+".d0"))
+		if rapid.Bool().Draw(t, label+".big") {
+			digits[0] = '9'
+		}
+		for i := 1; i < nd; i++ {
+			digits[i] = byte('0' + rapid.IntRange(0, 9).Draw(t, label+".d"))
+		}
+		pt := rapid.IntRange(1, nd-1).Draw(t, label+".pt")
+		return sign + string(digits[:pt]) + "." + string(digits[pt:])
 	case 0, 1:
 		return sign + fmt.Sprint(rapid.IntRange(0, 2000).Draw(t, label+".i"))
 	case 2, 3:
@@ -302,7 +361,8 @@ func vGenCoefExact(t *rapid.T, label string) string {
 	return fmt.Sprint(rapid.IntRange(-3, 3).Draw(t, label))
 }
 
-var vDecimalPool = []string{"259", "3.3", "0.40", "1.20", "-124", "0.001", "48", "9", "1.1", "0.9", "680", "7.5", "0.1", "0.2", "0.3", "1.5", "2.675", "-0.7", "-1.05", "100", "0.07", "33.333", "1e2", "2.5e-1", "0", "1", "2", "-1", "0.5"}
+var vDecimalPool = []string{"259", "3.3", "0.40", "1.20", "-124", "0.001", "48", "9", "1.1", "0.9", "680", "7.5", "0.1", "0.2", "0.3", "1.5", "2.675", "-0.7", "-1.05", "100", "0.07", "33.333", "1e2", "2.5e-1", "0", "1", "2", "-1", "0.5",
+	"0.005", "0.015", "0.125", "0.4", "-0.4", "12345678.5", "-1234567.25", "0.104", "0.108"}
 
 func vGenNumDecimal(t *rapid.T, label string) string {
 	if rapid.IntRange(0, 3).Draw(t, label+".p") == 0 {
@@ -322,8 +382,9 @@ var (
 )
 
 type vLayoutOpts struct {
-	Plain bool   // canonical two-space layout only
-	EOL   string // "" = LF, "\r\n", or "mixed"
+	Plain  bool   // canonical two-space layout only
+	EOL    string // "" = LF, "\r\n", or "mixed"
+	NoLong bool   // never draw the occasional comment/note line longer than 4096 bytes
 }
 
 func vGenEOL(t *rapid.T, o vLayoutOpts, label string) string {
@@ -382,6 +443,10 @@ var vNoteWords = []string{"barcode", "boiling time", "12 min", "0000000000000", 
 
 func vGenNoteLine(t *rapid.T, o vLayoutOpts, label string) vLine {
 	w := func(l string) string { return vNoteWords[rapid.IntRange(0, len(vNoteWords)-1).Draw(t, l)] }
+	if !o.NoLong && rapid.IntRange(0, 39).Draw(t, label+".long") == 0 {
+		// a note longer than a 4096-byte read buffer
+		return vLine{Kind: vkTNote, Text: "long " + strings.Repeat("n", []int{4090, 4100, 8200}[rapid.IntRange(0, 2).Draw(t, label+".longn")]), L: vGenNoteLayout(t, o, label)}
+	}
 	if rapid.Bool().Draw(t, label+".kv") {
 		return vLine{Kind: vkNote, Name: w(label + ".k"), Text: w(label + ".v"), L: vGenNoteLayout(t, o, label)}
 	}
@@ -392,6 +457,11 @@ var vCommentTexts = []string{"", " daily nutrition budget", " TODO", "# double",
 
 func vGenFillerLine(t *rapid.T, o vLayoutOpts, label string) vLine {
 	eol := vGenEOL(t, o, label)
+	if !o.NoLong && rapid.IntRange(0, 39).Draw(t, label+".long") == 0 {
+		// a comment line longer than a 4096-byte read buffer (but far below the 64 KiB line limit)
+		n := []int{4095, 4096, 4097, 8192, 9000}[rapid.IntRange(0, 4).Draw(t, label+".longn")]
+		return vLine{Kind: vkComment, Text: strings.Repeat("c", n-1), L: vLayout{EOL: eol}}
+	}
 	if rapid.Bool().Draw(t, label+".comment") {
 		return vLine{Kind: vkComment, Text: vCommentTexts[rapid.IntRange(0, len(vCommentTexts)-1).Draw(t, label+".ct")], L: vLayout{EOL: eol}}
 	}
@@ -439,6 +509,7 @@ type vBookOpts struct {
 	Layout     vLayoutOpts
 	Notes      bool
 	NBasics    int
+	NoWide     bool // never add the occasional pair of 30-60 element recipes
 }
 
 type vBookInfo struct {
@@ -523,6 +594,52 @@ func vGenBook(t *rapid.T, o vBookOpts, label string) (vDoc, vBookInfo) {
 			lines = append(lines, vLine{Kind: vkEntry, Name: src.Name, Num: num, L: vGenEntryLayout(t, o.Layout, label+".el")})
 		}
 		recs[i] = vRec{Head: recNames[i], HL: vGenHeadLayout(t, o.Layout, label+".hl"), Lines: lines}
+	}
+	// one book in 20 gets two wide recipes over a large shared pool of basic
+	// elements and a parent using both (lists long enough for any size-dependent
+	// fast path in merging)
+	if !o.NoWide && o.MaxDepth >= 2 && rapid.IntRange(0, 19).Draw(t, label+".wide") == 0 { // the parent has two levels below it
+		taken := map[string]bool{}
+		for _, r := range recs {
+			taken[r.Head] = true
+		}
+		uniq := func(base string) string {
+			for taken[base] {
+				base += "w"
+			}
+			taken[base] = true
+			return base
+		}
+		w1, w2, par := uniq("wide1"), uniq("wide2"), uniq("wideparent")
+		if o.Paths {
+			w1, w2, par = uniq("w/wide1"), uniq("w/wide2"), uniq("w/parent")
+		}
+		npool := rapid.IntRange(34, 60).Draw(t, label+".widepool")
+		mk := func(head string, lbl string) vRec {
+			var lines []vLine
+			for i := 0; i < npool; i++ {
+				if rapid.IntRange(0, 9).Draw(t, lbl+".skip") == 0 {
+					continue
+				}
+				num := vGenLeafExact(t, lbl+".v")
+				if !o.Exact {
+					num = vGenNumDecimal(t, lbl+".v")
+				}
+				lines = append(lines, vLine{Kind: vkEntry, Name: fmt.Sprintf("n%02d", i), Num: num, L: vGenEntryLayout(t, o.Layout, lbl+".el")})
+			}
+			return vRec{Head: head, HL: vGenHeadLayout(t, o.Layout, lbl+".hl"), Lines: lines}
+		}
+		coef := func(lbl string) string {
+			if o.Exact {
+				return vGenCoefExact(t, lbl)
+			}
+			return vGenNumDecimal(t, lbl)
+		}
+		recs = append(recs, mk(w1, label+".w1"), mk(w2, label+".w2"),
+			vRec{Head: par, HL: vGenHeadLayout(t, o.Layout, label+".wphl"), Lines: []vLine{
+				{Kind: vkEntry, Name: w1, Num: coef(label + ".wc1"), L: vGenEntryLayout(t, o.Layout, label+".wel")},
+				{Kind: vkEntry, Name: w2, Num: coef(label + ".wc2"), L: vGenEntryLayout(t, o.Layout, label+".wel")}}})
+		nrec = len(recs)
 	}
 	// declaration order: random permutation
 	if nrec > 1 {
@@ -631,6 +748,7 @@ type vLogOpts struct {
 	Sorted           bool
 	Layout           vLayoutOpts
 	Notes            bool
+	NoLongDays       bool // never draw the occasional 17-40 entry day
 }
 
 type vLogDay struct {
@@ -658,6 +776,9 @@ func vGenLog(t *rapid.T, o vLogOpts, label string) (vDoc, []int) {
 	recs := make([]vRec, nd)
 	for i := range recs {
 		ne := rapid.IntRange(0, o.MaxEntries).Draw(t, label+".nent")
+		if !o.NoLongDays && o.MaxEntries > 0 && rapid.IntRange(0, 19).Draw(t, label+".longday") == 0 {
+			ne = rapid.IntRange(17, 80).Draw(t, label+".nentlong") // days longer than any small-size fast path
+		}
 		var lines []vLine
 		for k := 0; k < ne; k++ {
 			var nm string
